@@ -121,11 +121,11 @@ CORPORA.update({
     "seqkey2": dict(
         module="MC.tla",
         quick=dict(consts=dict(Family="seq", SeqColls={1, 2, 3, 4, 8}, SeqApis={"lock", "try_lock", "scoped_lock", "scoped_try_lock"},
-                               SeqRels={"drop", "unlock"}, SeqKeys={"owned", "lent"}, SeqBodies={"none", "panic"},
+                               SeqRels={"drop", "unlock"}, SeqKeys={"owned", "lent"}, SeqBodies={"none", "panic", "probe"},
                                SeqKeyOps={"probe"}, SeqMaxLen=2, SeqHolders={("none", 0), ("lock", 13)}, Policies={"RP"}),
                    parts=14, max_runs=60000),
         thorough=dict(consts=dict(Family="seq", SeqColls={1, 2, 3, 4, 6, 8}, SeqApis=ALL_APIS,
-                                  SeqRels={"drop", "unlock"}, SeqKeys={"owned", "lent"}, SeqBodies={"none", "panic"},
+                                  SeqRels={"drop", "unlock"}, SeqKeys={"owned", "lent"}, SeqBodies={"none", "panic", "probe"},
                                   SeqKeyOps={"probe"}, SeqMaxLen=2, SeqHolders={("none", 0), ("lock", 13)}, Policies={"RP"}),
                       parts=16, max_runs=500000),
     ),
@@ -184,6 +184,28 @@ CORPORA.update({
         thorough=dict(consts=dict(Kinds=ALL_KINDS, ApisA=ALL_APIS, CallsB=HOLDERS_2,
                                   UnivA={1, 2, 4}, MinLenA=0, MaxLenA=3,
                                   Policies={"RP", "WP"}, NT=2, Keys={"owned", "lent"}, ConcBodies={"panic"}),
+                      parts=16, max_runs=500000),
+    ),
+    # the same operations by a thread whose key is not alive at that moment (dropped before / re-obtained after)
+    "opsnokey": dict(
+        module="MC.tla",
+        quick=dict(consts=dict(Family="seq", SeqColls=set(), SeqApis={"lock"}, SeqRels={"drop"}, SeqKeys={"owned"}, SeqBodies={"none"},
+                               SeqDbgColls=set(), SeqKeyOps={"dropkey", "getkey"},
+                               SeqTopOps={("debug", 1), ("debug", 2), ("debug", 3), ("debug", 4), ("debug", 5), ("debug", 6),
+                                          ("debug", 7), ("debug", 9), ("debug", 13), ("is_poisoned", 7), ("clear_poison", 7),
+                                          ("access", 3), ("access", 4), ("dupcheck", 3), ("dupcheck", 6)},
+                               SeqMaxLen=2, SeqHolders={("none", 0), ("lock", 3), ("read", 3), ("lock", 6), ("lock", 13), ("read", 4)},
+                               Policies={"RP", "WP"}),
+                   parts=8, max_runs=60000),
+        thorough=dict(consts=dict(Family="seq", SeqColls=set(), SeqApis={"lock"}, SeqRels={"drop"}, SeqKeys={"owned"}, SeqBodies={"none"},
+                                  SeqDbgColls=set(), SeqKeyOps={"dropkey", "getkey"},
+                                  SeqTopOps={("debug", 1), ("debug", 2), ("debug", 3), ("debug", 4), ("debug", 5), ("debug", 6),
+                                             ("debug", 7), ("debug", 9), ("debug", 13), ("debug", 14), ("is_poisoned", 7),
+                                             ("clear_poison", 7), ("access", 3), ("access", 4), ("access", 5), ("dupcheck", 3),
+                                             ("dupcheck", 4), ("dupcheck", 6), ("dupcheck", 7)},
+                                  SeqMaxLen=2, SeqHolders={("none", 0), ("lock", 3), ("read", 3), ("lock", 6), ("lock", 13), ("read", 4),
+                                                           ("lock", 14), ("read", 5), ("lock", 2)},
+                                  Policies={"RP", "WP"}),
                       parts=16, max_runs=500000),
     ),
     # non-acquiring operations ({:?}, is_poisoned, clear_poison) against every held pattern
@@ -269,17 +291,17 @@ CORPORA.update({
 
 PROPS = {
     "C01": dict(corpora=["conc2", "size3", "conc3", "nest", "conc2x2", "conc4"], design="DESIGN.md §5 C01"),
-    "C02": dict(corpora=["conc2", "size3", "nest"], design="DESIGN.md §5 C02"),
-    "C03": dict(corpora=["conc2", "size3", "seqapi", "conc2x2"], design="DESIGN.md §5 C03"),
+    "C02": dict(corpora=["conc2", "size3", "nest", "concpanic"], design="DESIGN.md §5 C02"),
+    "C03": dict(corpora=["conc2", "size3", "seqapi", "conc2x2", "panic", "concpanic"], design="DESIGN.md §5 C03"),
     "C04": dict(corpora=["conc2", "size3", "nest"], design="DESIGN.md §5 C04"),
-    "C05": dict(corpora=["conc2", "size3", "seqapi", "ops", "conc2x2"], design="DESIGN.md §5 C05"),
+    "C05": dict(corpora=["conc2", "size3", "seqapi", "ops", "conc2x2", "panic", "concpanic"], design="DESIGN.md §5 C05"),
     "C08": dict(corpora=["conc2", "size3"], design="DESIGN.md §5 C08"),
     "C09": dict(corpora=["conc2", "size3", "conc3", "nest", "conc4"], design="DESIGN.md §5 C09"),
     "C13": dict(corpora=["conc2", "seqapi"], design="DESIGN.md §5 C13"),
     "C06": dict(corpora=["seqkey", "seqkey2"], design="DESIGN.md §5 C06"),
     "C10": dict(corpora=["panic", "poisonseq"], design="DESIGN.md §5 C10"),
     "C11": dict(corpora=["concpanic", "panic", "seqkey2"], design="DESIGN.md §5 C11"),
-    "C17": dict(corpora=["ops"], design="DESIGN.md §5 C17"),
+    "C17": dict(corpora=["ops", "opsnokey"], design="DESIGN.md §5 C17"),
     "C12": dict(corpora=["fault", "evil"], design="DESIGN.md §5 C12"),
     "C07": dict(corpora=["ctor"], design="DESIGN.md §5 C07"),
 }
